@@ -187,6 +187,7 @@ func wBoot(cfg wConfig) *wWorld {
 		panic("store open: " + err.Error())
 	}
 	w := &wWorld{cfg: cfg}
+	wCur = w
 	w.tokAuth = store.Store.GetAuthHandler("token")
 	if !w.tokAuth.IsInitialized() {
 		if err := w.tokAuth.Init(json.RawMessage(wTokenCfg), "token"); err != nil {
@@ -220,7 +221,7 @@ func wBoot(cfg wConfig) *wWorld {
 	wTap.reset(!cfg.NoPush)
 	usersInit()
 	if wBooted {
-		globals.sessionStore = &SessionStore{lru: list.New(), lifeTime: idleSessionTimeout + 15*time.Second, sessCache: make(map[string]*Session)}
+		globals.sessionStore = wNewSessionStore()
 	}
 	globals.hub = wNewHub()
 	synctest.Wait()
@@ -280,7 +281,7 @@ func (w *wWorld) restart() {
 	w.stopHub()
 	w.sess = nil
 	usersInit()
-	globals.sessionStore = &SessionStore{lru: list.New(), lifeTime: idleSessionTimeout + 15*time.Second, sessCache: make(map[string]*Session)}
+	globals.sessionStore = wNewSessionStore()
 	globals.hub = wNewHub()
 	w.settle()
 }
@@ -316,10 +317,21 @@ func (w *wWorld) connect() *wSess {
 	// LPOLL-proto session driven directly with JSON; its lastTouched is refreshed on every
 	// request so that the long-poll expiry in SessionStore never fires for a live harness session.
 	s, _ := globals.sessionStore.NewSession(http.ResponseWriter(httptest.NewRecorder()), "")
-	ss := &wSess{idx: len(w.sess), s: s, user: -1, done: make(chan struct{})}
-	w.sess = append(w.sess, ss)
+	ss := &wSess{idx: -1, s: s, user: -1, done: make(chan struct{})}
 	go ss.loop()
 	return ss
+}
+
+// addSess connects a session and gives it the next free slot.
+func (w *wWorld) addSess() *wSess {
+	ss := w.connect()
+	ss.idx = len(w.sess)
+	w.sess = append(w.sess, ss)
+	return ss
+}
+
+func wNewSessionStore() *SessionStore {
+	return &SessionStore{lru: list.New(), lifeTime: idleSessionTimeout + 15*time.Second, sessCache: make(map[string]*Session)}
 }
 
 func (ss *wSess) record(m any) {
@@ -642,11 +654,13 @@ func (ss *wSess) subNames() []string {
 
 // ---------------------------------------------------------------- running a case in a bubble
 
-// wInBubble runs fn inside a synctest bubble and converts panics of the bubble's root
-// goroutine (including synctest's deadlock report) into a returned string.
+// wInBubble runs fn inside a synctest bubble. A panic of the bubble's root goroutine (the
+// goroutine that calls dispatch, as a network read loop would) is recorded; the world is then
+// torn down as far as possible so that the bubble can end. synctest's own complaints (deadlock,
+// goroutines left behind) surface as a panic of synctest.Test in the caller and are recorded too.
 func wInBubble(t *testing.T, fn func()) (failure string) {
 	defer func() {
-		if r := recover(); r != nil {
+		if r := recover(); r != nil && failure == "" {
 			failure = fmt.Sprintf("bubble: %v", r)
 		}
 	}()
@@ -654,17 +668,52 @@ func wInBubble(t *testing.T, fn func()) (failure string) {
 		defer func() {
 			if r := recover(); r != nil {
 				failure = fmt.Sprintf("panic: %v\n%s", r, wTrimStack(debug.Stack()))
-				// Leave the bubble as cleanly as possible.
-				func() {
-					defer func() { recover() }()
-					store.Store.Close()
-				}()
-				panic(r)
+				wEmergencyStop()
 			}
 		}()
 		fn()
 	})
 	return failure
+}
+
+var wCur *wWorld
+
+// wEmergencyStop makes every goroutine that runs on timers exit, without waiting for anything.
+func wEmergencyStop() {
+	defer func() { recover() }()
+	w := wCur
+	if w != nil {
+		for _, ss := range w.sess {
+			if ss == nil {
+				continue
+			}
+			ss.mu.Lock()
+			ss.closed = true
+			ss.mu.Unlock()
+			select {
+			case ss.s.stop <- nil:
+			default:
+			}
+		}
+	}
+	if h := globals.hub; h != nil {
+		go func() {
+			hd := make(chan bool, 1)
+			select {
+			case h.shutdown <- hd:
+			case <-time.After(time.Second):
+			}
+		}()
+	}
+	select {
+	case globals.usersUpdate <- nil:
+	default:
+	}
+	time.Sleep(2 * time.Second)
+	func() {
+		defer func() { recover() }()
+		store.Store.Close()
+	}()
 }
 
 func wTrimStack(b []byte) string {
